@@ -716,6 +716,12 @@ func (c10) Generate(r *sim.Rand, tier string) *sim.Scenario {
 	sim.SeedLibraryRNG(uint64(sc.Cfg["rngseed"]))
 	o := genOpts{MaxElems: 36, MaxRank: 4, MaxDim: 3, Comparison: false, PSynth: 0.3, PTracked: 0.8,
 		Weights: map[string]int{"reshape": 4, "broadcast": 3, "slice": 5, "patch": 5, "concat": 4, "unary": 1, "scale": 2, "pow": 1, "shape": 2, "along": 2, "arith": 3, "elmm": 1, "dot": 1, "matmul": 1}}
+	if r.Bool(0.4) {
+		// masks: untracked results that share nothing with each other; resets
+		// below may hit them like any other tensor
+		o.Comparison = true
+		o.Weights["cmp"] = 3
+	}
 	switch r.Intn(8) { // size swarm
 	case 0:
 		o.MaxDim, o.MaxElems = 17, 90
